@@ -71,13 +71,19 @@ fn expect_shape(n: usize) {
     std::mem::forget(recs);
 }
 
-/// C16 kernel: all vectors of <= 3 rule definitions x all expected statuses
-#[cfg_attr(kani, kani::proof)]
-#[cfg_attr(verif_replay, test)]
-fn k_expect() {
-    lib_only!();
-    expect_shape(0);
-    expect_shape(1);
-    expect_shape(2);
-    expect_shape(3);
+/// C16 kernel: all vectors of n rule definitions x all expected statuses (one n per harness)
+macro_rules! expect_harness {
+    ($name:ident, $n:expr) => {
+        #[cfg_attr(kani, kani::proof)]
+        #[cfg_attr(kani, kani::unwind(5))]
+        #[cfg_attr(verif_replay, test)]
+        fn $name() {
+            lib_only!();
+            expect_shape($n);
+        }
+    };
 }
+expect_harness!(k_expect_0, 0usize);
+expect_harness!(k_expect_1, 1usize);
+expect_harness!(k_expect_2, 2usize);
+expect_harness!(k_expect_3, 3usize);
